@@ -136,7 +136,8 @@ func (run *checkRun) report(obres []*ObResult, undecided []string, wall float64)
 			if le, ok := ledger[o.Name]; ok && (le.Status == "discharged" || le.Status == "known-finding") {
 				violations++
 				path := run.writeReplay(outDir, o, "undischarged (was discharged by "+le.Solver+" on the baseline)")
-				lines = append(lines, fmt.Sprintf("VIOLATION property=%s replay=%s obligation=%s no-failing-input-found", id, path, o.Name))
+				suffix := run.tryReplay(o, path) // only templates that search a small scope themselves run without a model
+				lines = append(lines, fmt.Sprintf("VIOLATION property=%s replay=%s obligation=%s %s", id, path, o.Name, suffix))
 				exit = max(exit, 1)
 			} else {
 				lines = append(lines, fmt.Sprintf("UNDECIDED property=%s reason=obligation %s not decided by any solver (not in the baseline ledger)", id, o.Name))
